@@ -6,7 +6,7 @@ from ..objects import warmup, make_object
 def run(ctx):
     lc = common.load_repo(ctx.repo)
     ctx.rule = ("(M) every charge pattern up to MaxLen is a TLC state, invariants DeltaIsDefinition (scaled integer form = "
-                "definition in exact rationals), DeltaZeroShort; (G) every state replayed into get_delta under 2 random "
+                "definition in exact rationals), DeltaZeroShort, LongChainFormSame (the BigNat form used above 1000 residues); (G) every state replayed into get_delta under 2 random "
                 "spellings, expected = TLC's exact rational; (V) random long sequences (some after a random warm-up "
                 "history of other calls) judged by TLC in Trace_Queries. non-trivial = distinct charge pattern with "
                 "delta > 0")
@@ -39,8 +39,8 @@ def run(ctx):
             ctx.violation("delta-value", {"seq": s, "after": hist}, expected="a number", actual=out)
             continue
         trs.append({"tid": i + 1, "seq": list(s), "after": hist, "ev": [{"q": "delta", "r": common.fx(out[1])}]})
-    # beyond TLC's 32-bit bound (more than 1000 residues): the same definition in exact fractions by the harness; pairs that agree
-    # at both ends, charged tracts across 1024-residue boundaries
+    # more than 1000 residues (the specification's BigNat form of the sum): pairs that agree at both ends, charged tracts across
+    # 1024-residue boundaries
     base = common.random_sequences(ctx.rng, 1, 1100, 1001)[0]
     longs = [base, base[:3] + "".join(ctx.rng.sample(base[3:-3], len(base) - 6)) + base[-3:],
              base[:1020] + "EEEEEEEE" + base[1028:] + "KKKKGSGS" * 130 + "DDDD",
@@ -48,11 +48,10 @@ def run(ctx):
     for s in longs:
         out = common.call(lambda: lc.SP(s).get_delta(), limit=120)
         ctx.evaluations += 1
-        exact = spec_delta(common.charge_pattern(s))
-        if out[0] != "ok" or not common.is_number(out[1]) or not common.close(out[1], exact):
-            ctx.violation("delta-value", {"seq": s, "length": len(s)}, expected=float(exact), actual=out)
-        else:
-            ctx.nontrivial.add(s)
+        if out[0] != "ok" or not common.is_number(out[1]):
+            ctx.violation("delta-value", {"seq": s, "length": len(s)}, expected="a number", actual=out)
+            continue
+        trs.append({"tid": len(seqs) + 1 + longs.index(s), "seq": list(s), "after": [{"made": "%d residues" % len(s)}], "ev": [{"q": "delta", "r": common.fx(out[1])}]})
     verdicts, known = traces.validate(ctx, "Trace_Queries", trs, {"sqrt": []})
     for tr in trs:
         v = verdicts[tr["tid"]]
